@@ -225,7 +225,7 @@ RULES = [
     ("PARITY", rule_parity, 3),
     ("PARAMETRIC", rule_parametric, 8),
     ("FST-PYPI", rule_fst, 10),
-    ("GUARDXFORM", lambda ctx: None, 5),
+    ("GUARDXFORM", lambda ctx: None, 3),
     ("TYPED", rule_unknown, 2),
 ]
 
